@@ -20,6 +20,7 @@ const (
 	KArray
 	KStruct
 	KOpaque // samplers, images, atomic_uint ...: type-checked as names only
+	KPtr    // MSL pointer (Elem = pointee, Space = address space); never stored in cells
 )
 
 // Type is a shared (dialect-agnostic) value type.  Scalars, vectors and
@@ -34,6 +35,37 @@ type Type struct {
 	Struct *StructDef
 	Name   string // KOpaque
 	nsc    int    // number of scalar cells (0 for runtime arrays)
+	// Var is non-nil for scalar types that share their Kind with a default
+	// scalar but are distinct types of the dialect (MSL half, char, short,
+	// atomic_uint ...).  Vectors / matrices of such scalars have Elem.Var set.
+	Var *scalarVariant
+	// Packed marks MSL packed_<T><N> vectors (distinct types with the layout
+	// of an array of N scalars).
+	Packed bool
+	// Space is the address space of a KPtr type ("device", "thread" ...).
+	Space string
+}
+
+// scalarVariant describes a non-default scalar type: its spelling, storage
+// width and its own vector / matrix singletons.  Values still occupy one
+// 32-bit cell per component (half: the binary32 image of the binary16 value;
+// narrow integers: sign- or zero-extended).
+type scalarVariant struct {
+	name   string
+	bits   int // storage width in bits: 8, 16, 32, 64
+	atomic bool
+	scalar *Type
+	vec    [5]*Type
+	mat    [5][5]*Type
+}
+
+// leafSize is the number of bytes a scalar leaf of type t occupies in a byte
+// buffer (4 for the default scalars).
+func leafSize(t *Type) int {
+	if t != nil && t.Var != nil {
+		return t.Var.bits / 8
+	}
+	return 4
 }
 
 // StructDef is a structure declaration.
@@ -98,10 +130,18 @@ func vecOf(scalar *Type, n int) *Type {
 	if n == 1 {
 		return scalar
 	}
+	if scalar.Var != nil {
+		return scalar.Var.vec[n]
+	}
 	return vecTypes[scalar.Kind][n]
 }
 
-func matOf(scalar *Type, cols, rows int) *Type { return matTypes[scalar.Kind][cols][rows] }
+func matOf(scalar *Type, cols, rows int) *Type {
+	if scalar.Var != nil {
+		return scalar.Var.mat[cols][rows]
+	}
+	return matTypes[scalar.Kind][cols][rows]
+}
 
 type arrKey struct {
 	elem *Type
@@ -241,6 +281,9 @@ func (t *Type) String() string {
 	if t == nil {
 		return "<nil>"
 	}
+	if s, ok := variantTypeString(t); ok {
+		return s
+	}
 	switch t.Kind {
 	case KVoid:
 		return "void"
@@ -281,4 +324,24 @@ func (t *Type) String() string {
 		return t.Name
 	}
 	return "?"
+}
+
+// variantTypeString spells the types that only non-GLSL dialects have
+// (variant scalars and their vectors / matrices, packed vectors, pointers).
+func variantTypeString(t *Type) (string, bool) {
+	switch {
+	case t.Kind == KPtr:
+		return t.Space + " " + t.Elem.String() + "*", true
+	case t.Var != nil:
+		return t.Var.name, true
+	case t.Kind == KVec && (t.Elem.Var != nil || t.Packed):
+		p := ""
+		if t.Packed {
+			p = "packed_"
+		}
+		return fmt.Sprintf("%s%s%d", p, t.Elem.String(), t.N), true
+	case t.Kind == KMat && t.Elem.Var != nil:
+		return fmt.Sprintf("%s%dx%d", t.Elem.String(), t.Cols, t.Rows), true
+	}
+	return "", false
 }
